@@ -199,6 +199,10 @@ def discharge(ob: Obligation, timeout_ms=None, witness_terms=None):
     reason = ""
     nvc = len(ob.vcs)
     for vc in ob.vcs:
+        if vc.note.startswith("UNKNOWN-SHAPE"):
+            if status == "proved":
+                status, reason = "unknown", vc.note
+            continue
         r = solve.check_vc(vc.pc, vc.goal, timeout_ms)
         secs += r.seconds
         backends[r.backend] = backends.get(r.backend, 0) + 1
@@ -292,7 +296,13 @@ def generate(ex: Executor, c: FnContract, mod, fnode):
                     ex.add_vc("returns", "", o.st.pc, goal, loc=ex.loc(fnode))
                 for (label, e) in c.ensures:
                     cx.note = ""
-                    g_ = ex._b(e(cx))
+                    try:
+                        g_ = ex._b(e(cx))
+                    except Unsupported as ue:
+                        # the postcondition cannot even be stated over this outcome (e.g. result of an unmodelled
+                        # operation): UNDECIDED for this obligation, never a violation by itself
+                        ex.add_vc("ensures", label, o.st.pc, z3.BoolVal(False), note=f"UNKNOWN-SHAPE: {ue}", loc=ex.loc(fnode))
+                        continue
                     ex.add_vc("ensures", label, o.st.pc, g_, note=cx.note, loc=ex.loc(fnode))
                 for p, fn in c.final.items():
                     want = list(fn(cx))
